@@ -84,9 +84,9 @@ ErrBases(s) ==
        Upd(ok, One("zzz", 7)),                                \* unknown keyword
        Upd(no, One("ola_wnd", "tri")),                        \* ola_* without an overlap-add
        Upd(no, One("ola_normalize", FALSE)),
-       Upd(no, One("ola_zzz", 7)),
-       Upd(ok, One("ola_zzz", 7)),                            \* fine: reaches the stub as zzz = 7
-       Cat(<<ok, One("ola_wnd", "neg"), One("ola_normalize", FALSE), One("ola_zzz", 7)>>),
+       Upd(no, One("ola_lag", 7)),
+       Upd(ok, One("ola_lag", 7)),                            \* fine: reaches the stub as lag = 7 (a name made of the letters of the prefix)
+       Cat(<<ok, One("ola_wnd", "neg"), One("ola_normalize", FALSE), One("ola_lag", 7)>>),
        Upd(ok, One("hop", s)) }                               \* hop = size is allowed
 
 Errs ==
